@@ -20,7 +20,7 @@ RULE = ("enum definitions with 1-8 value names drawn from pools (SCREAMING, came
 VALUE_POOL = ["RED", "GREEN", "DARK_BLUE", "blue", "darkGray", "light_pink", "V1", "A_1", "Mixed_Case", "NOT_FOUND", "a", "B", "Http2", "in_progress",
               "type", "match", "in", "fn", "self_", "async", "where", "loop", "Self_", "_leading", "x", "iOS", "HTTPServer", "snake_case_value",
               "PascalCase", "camelCaseValue", "struct", "enum", "impl", "yield", "dyn", "abstract", "union", "ref", "mod", "use", "super_", "crate_"]
-FLOOR = {"enum-strings": 1500, "schema-names": 150, "other-strings": 1000, "non-strings": 200, "keyword-values": 20, "norm-rust": 10}
+FLOOR = {"enum-strings": 1000, "schema-names": 120, "other-strings": 600, "non-strings": 200, "keyword-values": 15, "norm-rust": 10}
 
 
 def near_misses(vals, rng):
@@ -51,24 +51,37 @@ def gen_cases(run, n, prefix="c"):
         ename = rng.choice(["Color", "color_kind", "SCREAM_ENUM", "E1", "camelEnum"])
         s = Schema()
         s.add(ename, {"kind": "enum", "values": vals})
+        # a second enum in the same operation that shares some value names with the first
+        vals2 = list(rng.sample(vals, rng.randint(1, len(vals)))) + [v for v in rng.sample(VALUE_POOL, 2) if names.camel(v) not in seen and v not in seen]
+        seen2, v2 = set(), []
+        for v in vals2:
+            if names.camel(v) not in seen2:
+                seen2.add(names.camel(v))
+                v2.append(v)
+        rng.shuffle(v2)
+        s.add("Second", {"kind": "enum", "values": v2})
         s.add("In", {"kind": "input", "one_of": False, "fields": [["e", T(ename)], ["es", L(NN(T(ename)))]]})
         s.add("Query", {"kind": "object", "implements": [], "fields": [
             {"name": "e", "type": T(ename), "args": [], "deprecated": None},
-            {"name": "es", "type": L(NN(T(ename))), "args": [], "deprecated": None}]})
-        doc = {"operations": [{"kind": "query", "name": "Q", "vars": [{"name": "v", "type": T(ename), "default": None}, {"name": "i", "type": T("In"), "default": None}],
-                               "sel": [["field", None, "e", None, None], ["field", None, "es", None, None]]}], "fragments": []}
+            {"name": "es", "type": L(NN(T(ename))), "args": [], "deprecated": None},
+            {"name": "second", "type": T("Second"), "args": [], "deprecated": None}]})
+        doc = {"operations": [{"kind": "query", "name": "Q", "vars": [{"name": "v", "type": T(ename), "default": None}, {"name": "i", "type": T("In"), "default": None},
+                                                                   {"name": "w", "type": T("Second"), "default": None}],
+                               "sel": [["field", None, "e", None, None], ["field", None, "es", None, None], ["field", None, "second", None, None]]}], "fragments": []}
         opts = {"normalization": "rust"} if rust else {}
         c = C.make_case("%s%d" % (prefix, i), s, doc, rng, options=opts, fmt=rng.choice(["sdl", "json"]))
         strings = list(vals) + near_misses(vals, rng)[: run.size(40, 120)]
         vecs = []
+        for si, st in enumerate(v2 + ["zz_not_a_value", ""]):
+            vecs.append({"id": "s%d" % si, "kind": "enum", "target": "@enum-of:Second", "input": st, "expect": {"known": st in v2}, "s": st, "enum": "Second"})
         for si, st in enumerate(strings):
             known = st in vals
-            vecs.append({"id": "e%d" % si, "kind": "enum", "target": "@enum", "input": st, "expect": {"known": known}, "s": st})
+            vecs.append({"id": "e%d" % si, "kind": "enum", "target": "@enum-of:" + ename, "input": st, "expect": {"known": known}, "s": st, "enum": ename})
             if si % 3 == 0 or known:
-                vecs.append({"id": "r%d" % si, "kind": "resp", "target": "Q", "input": {"e": st, "es": [st, st]}, "expect": {"ok": True, "reser": {"e": st, "es": [st, st]}}, "label": "enum-in-response"})
+                vecs.append({"id": "r%d" % si, "kind": "resp", "target": "Q", "input": {"e": st, "es": [st, st], "second": None}, "expect": {"ok": True, "reser": {"e": st, "es": [st, st]}}, "label": "enum-in-response"})
                 vecs.append({"id": "v%d" % si, "kind": "vars", "target": "Q", "input": {"v": st, "i": {"e": st, "es": [st]}}, "expect": {"variables": {"v": st, "i": {"e": st, "es": [st]}}}})
         for ni, nv in enumerate([1, 1.5, None, True, [], {}, ["RED"]]):
-            vecs.append({"id": "n%d" % ni, "kind": "enum", "target": "@enum", "input": nv, "expect": {"reject": True}})
+            vecs.append({"id": "n%d" % ni, "kind": "enum", "target": "@enum-of:" + ename, "input": nv, "expect": {"reject": True}})
         c["vectors"] = vecs
         c["enum_values"] = vals
         feats = []
@@ -107,6 +120,7 @@ def execute(run, cases, tag="b0"):
             continue
         run.feature(c["features"])
         debug_of = {}
+        debug_by_enum = {}
         failed = None
         for vec in c["vectors"]:
             ob = o["obs"].get(vec["id"])
@@ -130,10 +144,16 @@ def execute(run, cases, tag="b0"):
                     elif exp["known"]:
                         run.count("schema-names")
                         d = ob.get("debug", "")
+                        dmap = debug_by_enum.setdefault(vec.get("enum"), {})
+                        squash = lambda x: x.replace("_", "").lower()
                         if d.startswith("Other("):
                             sym = "schema value %r deserialises to the catch-all %s" % (s0, d[:40])
-                        elif d in debug_of and debug_of[d] != s0:
-                            sym = "schema values %r and %r share variant %s" % (debug_of[d], s0, d)
+                        elif d in dmap and dmap[d] != s0:
+                            sym = "schema values %r and %r share variant %s" % (dmap[d], s0, d)
+                        elif squash(d) != squash(s0):
+                            # "its own variant": the variant is the value's name up to case, underscores and the keyword suffix
+                            sym = "schema value %r maps to the variant %s, which is another value's" % (s0, d)
+                        dmap[d] = s0
                         debug_of[d] = s0
                     else:
                         run.count("other-strings")
@@ -143,9 +163,11 @@ def execute(run, cases, tag="b0"):
             elif vec["kind"] == "resp":
                 sym = C.judge_resp(vec, ob)
             elif vec["kind"] == "vars":
+                got_vars = dict((ob.get("body") or {}).get("variables") or {})
+                got_vars.pop("w", None)
                 if not ob.get("ok"):
                     sym = "variables not expressible: %s" % ob.get("err")
-                elif (ob.get("body") or {}).get("variables") != vec["expect"]["variables"]:
+                elif got_vars != vec["expect"]["variables"]:
                     sym = "variables differ: %s" % json.dumps((ob.get("body") or {}).get("variables"))[:120]
             if sym:
                 one = dict(c)
